@@ -48,6 +48,9 @@ def cases(tier, seed):
         if R < 3 * np.degrees(hp.nside2resol(2 ** d)):
             continue
         yield "polygon", dict(ci=ci, n=n, R=R, depth=d, winding=w)
+    for pole in (1, -1):
+        for d in (4, 7, 10):
+            yield "polequery", dict(pole=pole, depth=d)
     for k in range(5):
         for r, d in ((0.5, 6), (5.0, 5), (0.3, 9)):
             yield "rabranch", dict(k=k, r=r, depth=d)
@@ -175,6 +178,38 @@ def ev_polygon(case, ctx):
     ctx.outcome("poly_in=%d,far=%d" % (min(1, int(np.sum(ans_in))), min(1, int(np.sum(beyond)))))
 
 
+def ev_polequery(case, ctx):
+    """positions EXACTLY at a celestial pole (any right ascension) are ordinary positions: inside a region that covers the pole,
+    outside one that does not; scalar and vector, radians and degrees"""
+    depth = case["depth"]
+    pole = case["pole"]
+    sig = "polequery:pole=%+d,depth=%d" % (pole, depth)
+    ctx.count("polequery")
+    ctx.nontrivial(sig)
+    covers = Region(maxdepth=depth)
+    covers.add_circles(np.radians(123.4), np.radians(pole * 89.2), np.radians(2.0))         # contains the pole (0.8 deg away)
+    at_pole = Region(maxdepth=depth)
+    at_pole.add_circles(0.0, pole * np.pi / 2, np.radians(1.0))
+    away = Region(maxdepth=depth)
+    away.add_circles(np.radians(40.0), np.radians(pole * 80.0), np.radians(3.0))            # 10 deg from the pole
+    for ra_deg in (0.0, 123.4, 359.9, 180.0):
+        for nm, reg, want in (("circle around the pole", at_pole, True), ("circle containing the pole", covers, True), ("circle 10 deg away", away, False)):
+            answers = {}
+            try:
+                answers["scalar rad"] = np.asarray(reg.sky_within(np.radians(ra_deg), pole * np.pi / 2), dtype=bool).tolist()
+                answers["scalar deg"] = np.asarray(reg.sky_within(ra_deg, pole * 90.0, degin=True), dtype=bool).tolist()
+                answers["vector deg"] = np.asarray(reg.sky_within([ra_deg, ra_deg + 1.0, 10.0], [pole * 90.0, pole * 90.0, pole * 80.0], degin=True), dtype=bool).tolist()[:2]
+                answers["vector rad"] = np.asarray(reg.sky_within(np.radians([ra_deg, 10.0]), np.array([pole * np.pi / 2, pole * 1.3])), dtype=bool).tolist()[:1]
+            except Exception as e:
+                ctx.violation("sky_within at the pole raised %r (%s, %s)" % (e, nm, sig), "polequery_raise|%s,%s" % (sig, nm))
+                continue
+            bad = {k: v for k, v in answers.items() if any(x != want for x in v)}
+            if bad:
+                ctx.violation("sky_within(ra=%g, dec=%+d deg exactly) on a %s: %r, expected %s (%s)" % (ra_deg, pole * 90, nm, bad, want, sig),
+                              "polequery|%s,%s,ra=%g" % (sig, nm, ra_deg))
+    ctx.outcome("polequery")
+
+
 def ev_rabranch(case, ctx):
     """right ascensions quoted on another branch (ra - 360, ra + 360, polygons written across the wrap as 359, 361 or -1, 1):
     the same places on the sky, hence the same regions"""
@@ -275,4 +310,4 @@ def ev_inttypes(case, ctx):
 
 
 def evaluate(clause, case, ctx):
-    dict(circle=ev_circle, polygon=ev_polygon, inttypes=ev_inttypes, rabranch=ev_rabranch)[clause](case, ctx)
+    dict(circle=ev_circle, polygon=ev_polygon, inttypes=ev_inttypes, rabranch=ev_rabranch, polequery=ev_polequery)[clause](case, ctx)
